@@ -100,12 +100,14 @@ CHECKS["C06"] = ("SseWsgi.tla, StreamWsgi.tla, SseAsgi.tla, TraceSseAsgi.tla, St
     "Task-level ASGI models: SseAsgi.tla (event streams, three tasks) and StreamAsgiTask.tla (plain streams, two tasks).",
     "DESIGN.md 5 C06")
 
-CHECKS["C10"] = ("RequestBody.tla",
+CHECKS["C10"] = ("RequestBody.tla, TraceRequestBody.tla",
     "TLC exhaustive model check of user tasks and the shared body/json/form futures of cached_property under every "
     "interleaving (OnceOnly, BodyExact, CacheStable, ErrorsDocumented); the model's terminal states give, per scenario, the set "
     "of admissible outcome vectors; every scenario run on the real Request (ASGI under virtual time, all task orders x 4 message "
     "timings; WSGI sequentially) must produce one of them, plus value/identity clauses on what the accessors returned; WSGI: "
-    "wsgi.input shorter / longer than CONTENT_LENGTH (a vanished client, a kept-alive connection)",
+    "wsgi.input shorter / longer than CONTENT_LENGTH (a vanished client, a kept-alive connection); every ASGI execution's order of "
+    "finished accesses and consumed-message counts validated by TLC against TraceRequestBody.tla (deliveries and the shared "
+    "computations are silent steps)",
     "All access programs up to length 2 (selected 3) for one task, pairs (thorough: triples) of concurrent tasks, 1-2 chunks, a "
     "disconnect at every position, three content types. The model over-approximates asyncio's FIFO scheduling, so a real outcome "
     "outside the admissible set is a violation.",
